@@ -304,7 +304,7 @@ func (c *Ctx) checkPlain(r *report.Result, reg oracle.Region, ev *DecEval, name 
 		}
 	}
 	r.Ob(rule, ok, name, where, detail)
-	if (ev.Lo&0x0fff) == 0 {
+	if (ev.Lo & 0x0fff) == 0 {
 		r.Sample(map[string]interface{}{"class": name, "array": h.Array, "index": fmt.Sprintf("addr%+d", h.Idx.Off), "index_range": []int64{h.Idx.Lo, h.Idx.Hi}, "array_len": h.Len})
 	}
 }
